@@ -9,12 +9,11 @@
        tables (spec/CodabarSpec.v, spec/TwoOfFiveSpec.v)
    codabar_language / *_representable : the inputs that have a symbol.
 
-   ONE PART OF THE PROPERTY IS FALSE OF THE CODE AS IT IS and is therefore stated
-   as refuted (C08_tof_interleaved_sound_refuted): in interleaved mode
-   twooffive.Encode accepts some strings that are not digit strings ("é", "12é":
-   an odd number of runes in an even number of bytes; the last rune is never
-   looked up).  The full-strength statement is proved for the one-line repair
-   (theorems C08_tof_patched_sound, _complete, _rejects). *)
+   History: before fix commit 63bda0c the interleaved encoder accepted some
+   non-digit strings ("\u00e9" = bytes C3 A9 gave start+stop only, "12\u00e9" was
+   drawn like "12": an odd number of runes in an even number of bytes, the last
+   rune was never looked up).  The theorems below are about the repaired code;
+   C08_tof_former_witness_rejected records the old witnesses as errors. *)
 From Verif Require Import Prelude Barcode Utf8RangeP
   TabCodabar CodabarM RunLenSpec CodabarSpec CodabarP
   TabTwoOfFive TwoOfFiveM TwoOfFiveSpec TwoOfFiveP.
@@ -98,88 +97,44 @@ Example C08_tof_round_trip_nonvacuous :
   tof_representable true [49; 50; 51; 52] = true /\ tof_representable false [49; 50; 51] = true.
 Proof. exact (conj tof_example_int tof_example_std). Qed.
 
-(* Standard variant, soundness for every byte string. *)
-Theorem C08_tof_standard_sound : forall s bc,
-  tof_encode s false = Ok bc ->
-  tof_representable false s = true
-  /\ bc_kind bc = K2of5 /\ bc_content bc = s /\ bc_checksum bc = None /\ bc_height bc = 1
-  /\ exists bits, bc_rows bc = [bits] /\ bc_width bc = zlength bits
-       /\ tof_decode false bits = Some (map digit_val s).
-Proof. exact tof_std_sound. Qed.
-Print Assumptions C08_tof_standard_sound.
-
-Theorem C08_tof_standard_rejects : forall s,
-  tof_representable false s = false -> tof_encode s false = Err.
-Proof. exact tof_std_reject. Qed.
-Print Assumptions C08_tof_standard_rejects.
-
-Example C08_tof_standard_rejects_nonvacuous : tof_representable false [49; 65] = false.
-Proof. exact eq_refl. Qed.
-
-(* Interleaved variant.  FULL STATEMENT (false today, see the refutation below):
-     forall s bc, tof_encode s true = Ok bc ->
-       tof_representable true s = true /\ ... /\ tof_decode true bits = Some (map digit_val s)
-   and  forall s, tof_representable true s = false -> tof_encode s true = Err.
-   Proved part: the statement restricted to pure ASCII input (every byte 0..127);
-   what is missing is exactly the inputs with a multi-byte rune, where it fails. *)
-Theorem C08_tof_interleaved_sound_partial : forall s bc,
-  Forall ascii_byte s ->
-  tof_encode s true = Ok bc ->
-  tof_representable true s = true
-  /\ bc_kind bc = K2of5I /\ bc_content bc = s /\ bc_checksum bc = None /\ bc_height bc = 1
-  /\ exists bits, bc_rows bc = [bits] /\ bc_width bc = zlength bits
-       /\ tof_decode true bits = Some (map digit_val s).
-Proof. exact tof_int_sound_ascii. Qed.
-Print Assumptions C08_tof_interleaved_sound_partial.
-
-Theorem C08_tof_interleaved_rejects_partial : forall s,
-  Forall ascii_byte s ->
-  tof_representable true s = false -> tof_encode s true = Err.
-Proof. exact tof_int_reject_ascii. Qed.
-Print Assumptions C08_tof_interleaved_rejects_partial.
-
-Example C08_tof_interleaved_rejects_nonvacuous : tof_representable true [49; 50; 51] = false.
-Proof. exact tof_example_odd. Qed.
-
-(* no input makes either variant panic *)
-Theorem C08_tof_never_panics : forall s interleaved,
-  tof_encode s interleaved = Err \/ exists bc, tof_encode s interleaved = Ok bc.
-Proof. exact tof_encode_no_panic. Qed.
-Print Assumptions C08_tof_never_panics.
-
-(* REFUTATION of the full interleaved statement for the code as it is: the two
-   bytes C3 A9 ("é") are accepted, the symbol consists of start and stop only and
-   does not decode to the content. *)
-Theorem C08_tof_interleaved_sound_refuted :
-  exists s bits,
-    tof_encode s true = Ok (mk1d K2of5I s None bits)
-    /\ tof_representable true s = false
-    /\ tof_decode true bits <> Some (map digit_val s)
-    /\ bits = tof_int_start ++ tof_int_stop.
-Proof. exact tof_int_sound_refuted. Qed.
-Print Assumptions C08_tof_interleaved_sound_refuted.
-
-(* With the proposed one-line repair (reject a pending rune after the loop) the
-   full statement holds for both variants and every byte string. *)
-Theorem C08_tof_patched_sound : forall s interleaved bc,
-  tof_encode_patched s interleaved = Ok bc ->
+(* Soundness, both variants, every byte string: an accepted content is a
+   non-empty ASCII digit string (of even length when interleaved), Content() is
+   the input, and the reference decoder reads exactly its digits. *)
+Theorem C08_tof_sound : forall s interleaved bc,
+  tof_encode s interleaved = Ok bc ->
   tof_representable interleaved s = true
   /\ bc_kind bc = (if interleaved then K2of5I else K2of5) /\ bc_content bc = s
   /\ bc_checksum bc = None /\ bc_height bc = 1
   /\ exists bits, bc_rows bc = [bits] /\ bc_width bc = zlength bits
        /\ tof_decode interleaved bits = Some (map digit_val s).
-Proof. exact tof_patched_sound. Qed.
-Print Assumptions C08_tof_patched_sound.
+Proof. exact tof_sound. Qed.
+Print Assumptions C08_tof_sound.
 
-Theorem C08_tof_patched_complete : forall s interleaved,
-  tof_representable interleaved s = true -> exists bc, tof_encode_patched s interleaved = Ok bc.
-Proof. exact tof_patched_complete. Qed.
-Print Assumptions C08_tof_patched_complete.
+Example C08_tof_sound_nonvacuous : exists bc, tof_encode [49; 50; 51; 52] true = Ok bc.
+Proof. exact (tof_complete _ _ tof_example_int). Qed.
 
-Theorem C08_tof_patched_rejects : forall s interleaved,
-  tof_representable interleaved s = false -> tof_encode_patched s interleaved = Err.
-Proof. exact tof_patched_reject. Qed.
-Print Assumptions C08_tof_patched_rejects.
+(* Completeness: every representable content is accepted. *)
+Theorem C08_tof_complete : forall s interleaved,
+  tof_representable interleaved s = true -> exists bc, tof_encode s interleaved = Ok bc.
+Proof. exact tof_complete. Qed.
+Print Assumptions C08_tof_complete.
+
+(* Everything else (empty, non-digits, multi-byte UTF-8, odd length when
+   interleaved) is an error return, never a panic. *)
+Theorem C08_tof_rejects : forall s interleaved,
+  tof_representable interleaved s = false -> tof_encode s interleaved = Err.
+Proof. exact tof_reject. Qed.
+Print Assumptions C08_tof_rejects.
+
+Example C08_tof_rejects_nonvacuous :
+  tof_representable true [49; 50; 51] = false /\ tof_representable false [49; 65] = false.
+Proof. exact (conj tof_example_odd eq_refl). Qed.
+
+(* the witnesses of the former defect *)
+Theorem C08_tof_former_witness_rejected :
+  tof_encode [195; 169] true = Err /\ tof_encode [49; 50; 195; 169] true = Err.
+Proof. exact tof_former_witness_rejected. Qed.
+Print Assumptions C08_tof_former_witness_rejected.
 
 (* ================= AddCheckSum ================= *)
 
